@@ -33,6 +33,15 @@ def in_value(o, v):
                         return False
                     if n == "MaxLen" and not len(o) <= cc.value:
                         return False
+                    # ordering facts recorded by comparisons with a constant (annotated_types-style checks of pyanalyze.annotated_types)
+                    if n == "Gt" and not o > cc.value:
+                        return False
+                    if n == "Ge" and not o >= cc.value:
+                        return False
+                    if n == "Lt" and not o < cc.value:
+                        return False
+                    if n == "Le" and not o <= cc.value:
+                        return False
                 except TypeError:
                     pass
         return True
